@@ -1,1 +1,270 @@
-fn main() {}
+//! C15S — part (c) of C15: the key-storage contract on the Stronghold-backed store.
+//!
+//! The SAME sequential-history model checking as `c15` parts (a1)/(a2) — op alphabet, reference model, oracle and
+//! complete observation vector are the shared file /verif/harness/vcheck/src/bin/c15/seq.rs, included here with
+//! `#[path]` — executed on `identity_stronghold::StrongholdStorage`, which implements both `JwkStorage` and
+//! `KeyIdStorage`. Every execution (one replayed history + one judged operation) starts from a FRESH snapshot
+//! file under <workspace>/target/stronghold-tmp/, removed when the execution ends.
+//!
+//! Persistence sub-check (Stronghold is used by writing to disk): after every judged operation the storage object
+//! is dropped and rebuilt from the same snapshot file with the same password; the observation vector (exists /
+//! signature matrix of every issued key id, resp. `get_key_id` of every digest) must be unchanged.
+//!
+//! Stronghold specifics, read from identity_stronghold/src/storage: key types Ed25519 (alg EdDSA) and BLS12381G2
+//! (only through `JwkStorageBbsPlusExt`, feature `bbs-plus`, left off here); no `count()`.
+
+#[path = "../../../../harness/vcheck/src/bin/c15/seq.rs"]
+mod seq;
+
+use identity_storage::KeyType;
+use identity_stronghold::StrongholdStorage;
+use iota_sdk::client::secret::stronghold::StrongholdSecretManager;
+use iota_sdk::client::Password;
+use seq::{Backend, Gk, IModel, IOp, KModel, KOp};
+use serde::{Deserialize, Serialize};
+use std::future::Future;
+use std::path::PathBuf;
+use std::sync::atomic::{AtomicBool, AtomicU64, Ordering};
+use std::sync::{Arc, Once};
+use vx::{guard, json, Ctx, Level};
+
+const PASSWORD: &str = "secure_password";
+
+/// Snapshot files live under the workspace's target directory (never under /tmp).
+fn snapshot_dir() -> PathBuf {
+  PathBuf::from(concat!(env!("CARGO_MANIFEST_DIR"), "/../target/stronghold-tmp"))
+}
+
+static FILES_CREATED: AtomicU64 = AtomicU64::new(0);
+static FILES_REMOVED: AtomicU64 = AtomicU64::new(0);
+static REOPENS: AtomicU64 = AtomicU64::new(0);
+static WORK_FACTOR: Once = Once::new();
+
+/// One Stronghold store on its own snapshot file.
+struct Snapshot {
+  storage: Option<StrongholdStorage>,
+  path: PathBuf,
+}
+impl Snapshot {
+  fn build(path: &PathBuf) -> Result<StrongholdStorage, String> {
+    // as in identity_stronghold's own tests: no key-derivation work for the snapshot encryption
+    WORK_FACTOR.call_once(|| {
+      if let Err(e) = iota_stronghold::engine::snapshot::try_set_encrypt_work_factor(0) {
+        vx::ctx::machinery_exit(&format!("try_set_encrypt_work_factor(0): {e:?}"));
+      }
+    });
+    StrongholdSecretManager::builder()
+      .password(Password::from(PASSWORD.to_owned()))
+      .build(path)
+      .map(StrongholdStorage::new)
+      .map_err(|e| format!("{e:?}"))
+  }
+  fn fresh() -> Snapshot {
+    let dir = snapshot_dir();
+    let n = FILES_CREATED.fetch_add(1, Ordering::Relaxed);
+    let path = dir.join(format!("c15s-{}-{n}.stronghold", std::process::id()));
+    if path.exists() {
+      vx::ctx::machinery_exit(&format!("snapshot file {path:?} exists before its execution started"));
+    }
+    match Snapshot::build(&path) {
+      Ok(s) => Snapshot { storage: Some(s), path },
+      Err(e) => vx::ctx::machinery_exit(&format!("cannot build a StrongholdStorage on the fresh file {path:?}: {e}")),
+    }
+  }
+  fn storage(&self) -> &StrongholdStorage {
+    self.storage.as_ref().expect("storage present between reopen attempts")
+  }
+  /// Drop the storage (and with it the secret manager and the in-memory Stronghold) and load the file again.
+  fn reopen(&mut self) -> Result<(), String> {
+    REOPENS.fetch_add(1, Ordering::Relaxed);
+    drop(self.storage.take());
+    match Snapshot::build(&self.path) {
+      Ok(s) => {
+        self.storage = Some(s);
+        Ok(())
+      }
+      Err(e) => {
+        // keep the handle usable (a fresh, empty store object on a new file) so that nothing panics in the harness
+        let msg = format!("building the secret manager again from {:?} failed: {e}", self.path.file_name());
+        let _ = std::fs::remove_file(&self.path);
+        self.storage = Snapshot::build(&self.path).ok();
+        Err(msg)
+      }
+    }
+  }
+}
+impl Drop for Snapshot {
+  fn drop(&mut self) {
+    drop(self.storage.take());
+    match std::fs::remove_file(&self.path) {
+      Ok(()) => {
+        FILES_REMOVED.fetch_add(1, Ordering::Relaxed);
+      }
+      Err(e) if e.kind() == std::io::ErrorKind::NotFound => {
+        // nothing was ever committed in this execution
+        FILES_REMOVED.fetch_add(1, Ordering::Relaxed);
+      }
+      Err(_) => {}
+    }
+  }
+}
+
+struct Sh;
+impl Backend for Sh {
+  const KEY_STORE: &'static str = "StrongholdStorage";
+  const KEYID_STORE: &'static str = "StrongholdStorage";
+  const PERSISTENT: bool = true;
+  type Keys = StrongholdStorage;
+  type KeyIds = StrongholdStorage;
+  type KeysH = Snapshot;
+  type KeyIdsH = Snapshot;
+  fn open_keys() -> Snapshot {
+    Snapshot::fresh()
+  }
+  fn keys(h: &Snapshot) -> &StrongholdStorage {
+    h.storage()
+  }
+  fn key_count(_: &Snapshot) -> Option<usize> {
+    None
+  }
+  fn reopen_keys(h: &mut Snapshot) -> Result<(), String> {
+    h.reopen()
+  }
+  fn open_keyids() -> Snapshot {
+    Snapshot::fresh()
+  }
+  fn keyids(h: &Snapshot) -> &StrongholdStorage {
+    h.storage()
+  }
+  fn keyid_count(_: &Snapshot) -> Option<usize> {
+    None
+  }
+  fn reopen_keyids(h: &mut Snapshot) -> Result<(), String> {
+    h.reopen()
+  }
+  fn key_type(k: Gk) -> KeyType {
+    match k {
+      Gk::Ed25519 => identity_stronghold::ED25519_KEY_TYPE,
+      Gk::Bls12381G2 => identity_stronghold::BLS12381G2_KEY_TYPE,
+      Gk::Bogus => KeyType::new("bogus"),
+    }
+  }
+  fn block_on<F: Future>(f: F) -> F::Output {
+    // StrongholdStorage only awaits tokio::sync::Mutex (no timers, no spawned tasks: the secret manager is built
+    // without a password-clearing timeout), so a plain executor on the calling thread drives it.
+    vx::gate::block_on(f)
+  }
+}
+
+// ================================================================================================ cases
+
+/// Same serde form as the sequential variants of c15's `Case`.
+#[derive(Serialize, Deserialize, Debug, Clone)]
+enum Case {
+  Jwk { cap: u8, hist: Vec<KOp> },
+  KeyId { hist: Vec<IOp> },
+}
+
+fn prepare_dir(ctx: &Ctx) {
+  let dir = snapshot_dir();
+  if let Err(e) = std::fs::create_dir_all(&dir) {
+    vx::ctx::machinery_exit(&format!("cannot create {dir:?}: {e}"));
+  }
+  let dir = dir.canonicalize().unwrap_or(dir);
+  let tmp = std::env::temp_dir();
+  ctx.require(!dir.starts_with(&tmp), &format!("snapshot directory {dir:?} must not be under {tmp:?}"));
+}
+
+/// Remove whatever this process left in the snapshot directory; returns the number of leftovers found.
+fn cleanup() -> usize {
+  let dir = snapshot_dir();
+  let mine = format!("c15s-{}-", std::process::id());
+  let mut left = 0;
+  if let Ok(rd) = std::fs::read_dir(&dir) {
+    for e in rd.flatten() {
+      if e.file_name().to_string_lossy().starts_with(&mine) {
+        left += 1;
+        let _ = std::fs::remove_file(e.path());
+      }
+    }
+  }
+  let _ = std::fs::remove_dir(&dir); // only succeeds when empty
+  left
+}
+
+fn eval(ctx: &Ctx, case: &Case) {
+  ctx.eval1();
+  prepare_dir(ctx);
+  match case {
+    Case::Jwk { cap, hist } => seq::replay_jwk::<Sh>(*cap, hist).drain_into(ctx, "jwk-replay"),
+    Case::KeyId { hist } => seq::replay_keyid::<Sh>(hist).drain_into(ctx, "keyid-replay"),
+  }
+  cleanup();
+}
+
+fn generate(ctx: &Ctx) {
+  ctx.rule("C15 part (c): the sequential-history explorer of C15 (a1)/(a2) (shared model file c15/seq.rs) on identity_stronghold::StrongholdStorage. (a1) stateright BFS over key-store op histories (state = history; the store is rebuilt by replay on a FRESH snapshot file for every expansion; fingerprint = model slots + complete observation vector: exists of every issued id and a never-issued id, sign by every id verified under every issued public JWK, + the depth). (a2) the same for the KeyIdStorage side over digests x key ids, to closure. After every judged operation the storage is dropped and rebuilt from its snapshot file and observed again. distinct_nontrivial = unique states of the runs");
+  ctx.assume("the snapshot encryption work factor is set to 0 (iota_stronghold::engine::snapshot::try_set_encrypt_work_factor), as in identity_stronghold's own tests; the password is fixed");
+  ctx.assume("two histories are merged iff model state and the complete observation vector of the rebuilt real store coincide; a difference invisible to every observation at every later step is not excluded (bounded-observation caveat)");
+  ctx.assume("EdDSAJwsVerifier and the harness's fixed-seed Ed25519 keys (iota-crypto) are the trusted verification base; the RFC 7638 thumbprint is recomputed by the harness with sha2");
+  ctx.assume("Stronghold under thread schedules is not explored (DESIGN: excluded); the bbs-plus feature (BLS12381G2 through JwkStorageBbsPlusExt) is off");
+  prepare_dir(ctx);
+
+  // ---------------------------------------------------------------- (a1)
+  // stateright's depth target counts the initial state as depth 1: target d+1 = every history of <= d operations
+  let ops = ctx.by_tier(2usize, 4usize);
+  let cap = 3u8;
+  let diverged = Arc::new(AtomicBool::new(false));
+  let t0 = ctx.elapsed_s();
+  let st = vx::sr::run(
+    ctx,
+    &format!("(c/a1) StrongholdStorage as JwkStorage: histories of <= {ops} operations, <= {cap} issued ids (depth in fingerprint), reopen after every step"),
+    Some(ops + 1),
+    |col| KModel::<Sh>::new(cap, true, col, diverged.clone()),
+  );
+  for i in 0..st.unique {
+    ctx.distinct(&(1u8, i));
+  }
+  let t1 = ctx.elapsed_s();
+  ctx.require(!diverged.load(Ordering::Relaxed), "(c/a1) replaying a recorded history produced a different number of issued key ids");
+  ctx.bound("jwk_store_issued_ids_cap", cap);
+  ctx.bound("jwk_store_history_length", ops);
+
+  // ---------------------------------------------------------------- (a2)
+  let (nd, nk) = (2u8, 2u8);
+  let st2 = vx::sr::run(
+    ctx,
+    &format!("(c/a2) StrongholdStorage as KeyIdStorage: histories over {nd} digests x {nk} key ids, to closure, reopen after every step"),
+    None,
+    |col| IModel::<Sh>::new(nd, nk, col),
+  );
+  for i in 0..st2.unique {
+    ctx.distinct(&(2u8, i));
+  }
+  let t2 = ctx.elapsed_s();
+  ctx.bound("key_id_store_universe", json!({"digests": nd, "key_ids": nk}));
+
+  // ---------------------------------------------------------------- files
+  let left = cleanup();
+  let (created, removed) = (FILES_CREATED.load(Ordering::Relaxed), FILES_REMOVED.load(Ordering::Relaxed));
+  ctx.require(left == 0 && created == removed, &format!("snapshot files: {created} executions started, {removed} files removed by their executions, {left} left over"));
+  ctx.part(
+    "(c) snapshot files and wall time",
+    json!({"fresh_snapshot_files(one per execution)": created, "removed": removed, "reopens_from_snapshot": REOPENS.load(Ordering::Relaxed),
+      "directory": snapshot_dir().to_string_lossy(), "wall_s_a1(both runs: all cores, then 1 thread)": ((t1 - t0) * 10.0).round() / 10.0,
+      "wall_s_a2(both runs)": ((t2 - t1) * 10.0).round() / 10.0}),
+  );
+  // keep the guard import honest: a last smoke test that a dropped handle really removed its file
+  let probe = guard(|| {
+    let h = Snapshot::fresh();
+    let p = h.path.clone();
+    drop(h);
+    p.exists()
+  });
+  ctx.require(matches!(probe, Ok(false)), "a dropped snapshot handle leaves its file behind");
+  cleanup();
+}
+
+fn main() {
+  vx::run_main::<Case, _, _>("C15S", Level::ModelChecking, generate, eval)
+}
